@@ -134,3 +134,6 @@ for _p in ("C01", "C02", "C03", "C04", "C05", "C06", "C09", "C12"):
 
 # C13: the deterministic schedule enumerations also detect calls that never return
 PLANS["C13"]["jobs"] = multi(PLANS["C13"]["jobs"], pair_jobs, oppair_jobs)
+
+# C05: user-function invocation counts across grow-triggering retries, sequentially (deterministic)
+PLANS["C05"]["jobs"] = multi(PLANS["C05"]["jobs"], simple("seqmap", (300, 0), (20000, 0), stripes_q=4), seq_plan((400, 8), (20000, 100)))
